@@ -4,8 +4,8 @@
 // only from integers within 64 bits, REAL from any number, TEXT only from strings, BOOLEAN only from booleans, arrays
 // element-wise, CONVERT = the JSON string parsed as the declared type; NULL when the value has another type; NULL or the
 // declared DEFAULT when the path is absent or the line is not valid JSON; regex columns keep working on the raw line.
-// Grid: 20 column definitions (every scalar type, nested paths, array indexes, CONVERT, DEFAULT, NOT NULL, an array column,
-// a regex column next to JSON columns) x 32 lines (nesting, insignificant whitespace around the document, wrong-typed leaves, numbers beyond i64 / f64, duplicate keys,
+// Grid: 24 column definitions (every scalar type, nested paths, array indexes - also as the last step of a column with a DEFAULT -, CONVERT, DEFAULT, NOT NULL, an array column,
+// a regex column next to JSON columns) x 36 lines (nesting, insignificant whitespace around the document, wrong-typed leaves, numbers beyond i64 / f64, duplicate keys,
 // arrays, empty containers, non-JSON text, truncated JSON).
 // Also: tables with regex and JSON columns where no pattern matches the JSON line.
 include!("verif_grid_common.rs");
@@ -75,13 +75,16 @@ fn verif_grid() {
         Col { path: vec![F("s")], ty: Ty::Bool, convert: true, default: None, array: false }, Col { path: vec![F("a")], ty: Ty::Int, convert: true, default: None, array: false },
         Col { path: vec![F("m")], ty: Ty::Int, convert: false, default: Some("7"), array: false }, Col { path: vec![F("m"), F("n")], ty: Ty::Text, convert: false, default: Some("'none'"), array: false },
         Col { path: vec![F("a")], ty: Ty::Real, convert: false, default: Some("1.5"), array: false },
+        // a path that ends in an index: past the end of the array, or on something that is not an array, the path is ABSENT (DEFAULT applies)
+        Col { path: vec![F("l"), I(3)], ty: Ty::Int, convert: false, default: Some("77"), array: false }, Col { path: vec![F("l"), I(0)], ty: Ty::Text, convert: false, default: Some("'none'"), array: false },
+        Col { path: vec![I(2)], ty: Ty::Int, convert: false, default: Some("9"), array: false }, Col { path: vec![F("l"), I(1), I(0)], ty: Ty::Real, convert: false, default: Some("0.5"), array: false },
         Col { path: vec![F("l")], ty: Ty::Int, convert: false, default: None, array: true }, Col { path: vec![F("o"), F("list")], ty: Ty::Text, convert: false, default: None, array: true },
     ];
     let lines: Vec<&str> = vec![
         r#"{"a": 1}"#, r#"{"a": -5, "s": "12"}"#, r#"{"a": 1.5, "s": "1.25"}"#, r#"{"a": "text", "s": "true"}"#, r#"{"a": true, "s": "x"}"#, r#"{"a": null}"#,
         r#"{"a": 9223372036854775807}"#, r#"{"a": 9223372036854775808}"#, r#"{"a": -9223372036854775809}"#, r#"{"a": 1e400}"#, r#"{"a": 1e308, "s": "1e400"}"#, r#"{"a": 0.1, "s": "9223372036854775808"}"#,
         r#"{"o": {"x": 3, "y": {"z": "deep"}, "list": ["p", 2, "q"]}, "l": [10, {"k": "v"}, 2.5]}"#, r#"{"o": {"x": "3", "y": "flat"}, "l": []}"#, r#"{"o": [1, 2], "l": {"0": 1}}"#,
-        r#"{"a": 1, "a": 2}"#, r#"{"l": [1, "two", 3.0, null, true]}"#, r#"[5, {"a": false}]"#, r#"[]"#, r#"{}"#, r#"7"#, r#""just a string""#,
+        r#"{"a": 1, "a": 2}"#, r#"{"l": [1, "two", 3.0, null, true]}"#, r#"{"l": [1, [0.25, 2], 3, 4]}"#, r#"{"l": ["only"]}"#, r#"{"l": "text"}"#, r#"[1, 2, 3]"#, r#"[5, {"a": false}]"#, r#"[]"#, r#"{}"#, r#"7"#, r#""just a string""#,
         "  {\"a\": 3, \"s\": \"4\"}", "\t{\"a\": 4}  ", " [6, {\"a\": true}]", "\u{a0}{\"a\": 5}",
         r#"{"\u0061": 8, "s": "9"}"#, r#"{"o": {"\u0078": 4, "y": {"z": "esc\u0061ped"}}, "\u006c": [3]}"#,
         r#"not json at all"#, r#"{"a": 1"#, r#""#, r#"{"a": 1} trailing"#,
